@@ -291,13 +291,42 @@ pub fn c05_sensitivity(rep: &Report) -> (u64, u64) {
 /// does not know how to set): every board then comes from the engine's own FEN loader, on a reduced enumeration
 static USE_LOADER: std::sync::atomic::AtomicBool = std::sync::atomic::AtomicBool::new(false);
 
+/// placements on which the evaluation panicked (reported as violations of C14 by run_c14: no value, no identity)
+static EVAL_PANICS: std::sync::Mutex<Vec<(String, String)>> = std::sync::Mutex::new(Vec::new());
+
 fn eval_of(pos: &Pos, h: &ZobristHasher) -> i32 {
-    if USE_LOADER.load(Ordering::Relaxed) {
-        if let Ok(b) = BoardState::from_fen(&pos.fen()) {
-            return get_evaluation(&b);
+    let r = catch_unwind(AssertUnwindSafe(|| {
+        if USE_LOADER.load(Ordering::Relaxed) {
+            if let Ok(b) = BoardState::from_fen(&pos.fen()) {
+                return get_evaluation(&b);
+            }
+        }
+        get_evaluation(&board_direct(pos, h))
+    }));
+    match r {
+        Ok(v) => v,
+        Err(e) => {
+            let mut g = EVAL_PANICS.lock().unwrap();
+            if g.len() < 1000 {
+                g.push((pos.fen(), panic_text(e)));
+            }
+            0
         }
     }
-    get_evaluation(&board_direct(pos, h))
+}
+
+/// the evaluation of a ready board, a panic recorded like in eval_of
+fn safe_eval(b: &BoardState, what: &str) -> i32 {
+    match catch_unwind(AssertUnwindSafe(|| get_evaluation(b))) {
+        Ok(v) => v,
+        Err(e) => {
+            let mut g = EVAL_PANICS.lock().unwrap();
+            if g.len() < 1000 {
+                g.push((what.to_string(), panic_text(e)));
+            }
+            0
+        }
+    }
 }
 
 const ALL12: [u8; 12] = [1, 2, 3, 4, 5, 6, 9, 10, 11, 12, 13, 14];
@@ -307,8 +336,8 @@ pub fn run_c14(rep: &Report) -> i32 {
     let mut n_pieces = 3; // both tiers
     // conformance of the direct board builder with the FEN loader, before anything is enumerated with it
     for f in ["rnbqkbnr/pppppppp/8/8/8/8/PPPPPPPP/RNBQKBNR w KQkq - 0 1", "r3k2r/p1ppqpb1/bn2pnp1/3PN3/1p2P3/2N2Q1p/PPPBBPPP/R3K2R w KQkq - 0 1", "QQQQQQQQ/Q7/8/8/8/8/7k/K7 b - - 0 1", "4k3/8/8/3pP3/8/8/8/4K3 w - d6 0 1"] {
-        let a = get_evaluation(&BoardState::from_fen(f).unwrap());
-        let b = get_evaluation(&board_direct(&Pos::from_fen(f).unwrap(), &h));
+        let a = safe_eval(&BoardState::from_fen(f).unwrap(), f);
+        let b = safe_eval(&board_direct(&Pos::from_fen(f).unwrap(), &h), f);
         if a != b {
             USE_LOADER.store(true, Ordering::Relaxed);
         }
@@ -603,7 +632,7 @@ pub fn run_c14(rep: &Report) -> i32 {
                             }
                             _ => {}
                         }
-                        let e = get_evaluation(&b);
+                        let e = safe_eval(&b, &q.fen());
                         purity += 1;
                         if e != reference {
                             rep.fail("C14", "depends-on-non-placement-field", format!("{}: value {} changes to {} with rights {:04b}, ep {:?}, hidden-field variant {}", p.fen(), reference, e, rights, ep, variant), J::obj().set("kind", J::s("c14")).set("fen", J::s(&q.fen())).set("variant", J::i(variant)));
@@ -620,7 +649,7 @@ pub fn run_c14(rep: &Report) -> i32 {
     // conformance of the direct board builder with the FEN loader on the sample positions
     let mut validated = 0;
     for f in sample_fens {
-        let a = get_evaluation(&BoardState::from_fen(f).unwrap());
+        let a = safe_eval(&BoardState::from_fen(f).unwrap(), f);
         let b = eval_of(&Pos::from_fen(f).unwrap(), &h);
         if a != b && !USE_LOADER.load(Ordering::Relaxed) {
             crate::report::machinery_error(&format!("evaluation of directly built board differs from FEN-loaded board for {}", f));
@@ -633,6 +662,12 @@ pub fn run_c14(rep: &Report) -> i32 {
     // castling/promotion families must evaluate like the same position loaded from FEN.
     let r = crate::e1_posgraph::run(rep, crate::e1_posgraph::Focus::for_property("C14"));
     rep.add("producer_pass_states", r.states);
+    {
+        let g = EVAL_PANICS.lock().unwrap();
+        for (fen, msg) in g.iter().take(8) {
+            rep.fail("C14", "evaluation-panics", format!("{}: the evaluation panics ({}); {} placements in all", fen, msg, g.len()), J::obj().set("kind", J::s("c14")).set("fen", J::s(fen)));
+        }
+    }
     rep.finish(
         total + vectors + purity + r.states,
         evals.load(Ordering::Relaxed) + vectors + purity + r.transitions,
